@@ -1,13 +1,15 @@
 INIT Init
 NEXT Next
 CONSTANTS
-  Profile = "quick"
-  MaxLines = 4
-  MaxIfs = 2
+  Profile = "tiny"
+  MaxLines = 3
+  MaxIfs = 1
   MaxDepth = 2
   MaxAtoms = 2
+  MaxCondAtoms = 2
   Bug = "none"
+  Fixed = {}
 INVARIANT ArgumentKindsFollowSpec
-INVARIANT ExactOnSingletons
 INVARIANT EvalFollowsSpec
+INVARIANT EmitDone
 CHECK_DEADLOCK FALSE
